@@ -109,3 +109,35 @@ Example C13_def_sig_guard_inhabited :
      mkSParam 5 VarKw false (TGeneric dict_c [TTyped str_c; TTyped 1])].
 Proof. exact def_sig_guard_inhabited. Qed.
 Print Assumptions C13_def_sig_guard_inhabited.
+
+(* ---- calls ---------------------------------------------------------------- *)
+(* the same call (any list of raw arguments: positionals, keywords, *args and
+   **kwargs of known or unknown length), judged by the binder of C05 against
+   the signature of the def node and against the signature of the function
+   object: the same verdict, the same binding, the same declared type for every
+   bound argument -- for every parameter list without a private name *)
+Require Import PV.Annot.Calls.
+Require PV.Binder.Bind.
+
+Definition C13_call_judged_identically_full_statement : Prop := forall ps raw,
+  call_in_defining_scope ps raw = call_from_importer ps raw.
+
+Theorem C13_call_judged_identically_partial : forall ps raw,
+  forallb param_ok ps = true ->
+  call_in_defining_scope ps raw = call_from_importer ps raw.
+Proof. exact call_judged_identically_partial. Qed.
+Print Assumptions C13_call_judged_identically_partial.
+
+Theorem C13_call_private_refuted :
+  call_in_defining_scope ex_private [Bind.RKw 1; Bind.RKw 2] <> None /\
+  call_from_importer ex_private [Bind.RKw 1; Bind.RKw 2] = None /\
+  call_in_defining_scope ex_private [Bind.RPos; Bind.RPos] = call_from_importer ex_private [Bind.RPos; Bind.RPos].
+Proof. exact call_private_refuted. Qed.
+Print Assumptions C13_call_private_refuted.
+
+Example C13_call_example :
+  call_from_importer ex_sig [Bind.RPos; Bind.RPos; Bind.RPos; Bind.RKw 4; Bind.RKw 9] <> None /\
+  call_from_importer ex_sig [Bind.RKw 1] = None /\
+  call_from_importer ex_sig [] = None.
+Proof. exact call_example. Qed.
+Print Assumptions C13_call_example.
